@@ -114,6 +114,37 @@ fn k03_split_nonascii_short_eq_value() {
     std::mem::forget(os);
 }
 
+/// `-c=v` where c is a fixed four-byte character (🦀, lead byte 0xF0) and v one free byte:
+/// the width of the short name is taken from its lead byte also at the 3/4-byte boundary of the lead-byte table
+#[kani::proof]
+#[kani::unwind(10)]
+fn k03_split_4byte_short_eq_value() {
+    let v: u8 = kani::any();
+    let mut b = Vec::with_capacity(7);
+    b.push(b'-');
+    b.push(0xF0);
+    b.push(0x9F);
+    b.push(0xA6);
+    b.push(0x80);
+    b.push(b'=');
+    b.push(v);
+    let os = OsString::from_vec(b);
+    let r = split_os_argument(&os);
+    assert!(r.is_some());
+    let (ty, name, val) = r.unwrap();
+    assert!(ty == ArgType::Short);
+    let nb = name.as_bytes();
+    assert!(nb.len() == 4 && nb[0] == 0xF0 && nb[3] == 0x80);
+    let vb = arg_bytes(&val);
+    assert!(vb.is_some());
+    let vb = vb.unwrap();
+    assert!(vb.len() == 1 && vb[0] == v);
+    kani::cover!(v >= 128);
+    std::mem::forget(name);
+    std::mem::forget(val);
+    std::mem::forget(os);
+}
+
 /// `--c=v`, same family for a long name
 #[kani::proof]
 #[kani::unwind(8)]
